@@ -69,4 +69,9 @@ VARIANTS = [
      'edits': [(CG, "            if group1 is not None:\n                # keep the group reference in step with the label\n                det.group = group1\n", "")]},
     {'name': 'revert-fix-F25-marks-not-rebuilt', 'rule': 'C15.R4',
      'edits': [(M, "            avr_group.non_covalently_coupled_groups = partners\n", "            pass\n")]},
+    {'name': 'averaged-partner-list-shared-by-all-groups', 'rule': 'C15.R4',
+     'edits': [(M, "        for avr_group in avr_conformation.groups:\n            partners: list = []\n", "        partners: list = []\n        for avr_group in avr_conformation.groups:\n")]},
+    {'name': 'averaged-partners-skip-after-first-found', 'rule': 'C15.R4',
+     'edits': [(M, "        for avr_group in avr_conformation.groups:\n            partners: list = []\n", "        done: list = []\n        for avr_group in avr_conformation.groups:\n            partners: list = []\n"),
+               (M, "                    if avr_other and avr_other not in partners:\n                        partners.append(avr_other)", "                    if avr_other and avr_other not in partners and avr_other not in done:\n                        partners.append(avr_other)\n                        done.append(avr_other)")]},
 ]
